@@ -14,7 +14,7 @@
 (* first appearance and checks freshness).                                     *)
 (*                                                                            *)
 (* Apply(s, call) is the single definition of the contract.                   *)
-EXTENDS Integers, Sequences, FiniteSets, Emit
+EXTENDS Integers, Sequences, FiniteSets, SequencesExt, Emit
 
 CONSTANTS Keys,        \* set of keys; a key is a tuple of one-character strings
           Pats,        \* ListKeys patterns; tuples over characters, "*" and "?"
@@ -130,8 +130,8 @@ Calls(s) ==
     \cup {[op |-> "Get", k |-> k] : k \in Keys}
     \cup {[op |-> "Delete", k |-> k] : k \in Keys}
     \cup {[op |-> "GetMany", ks |-> ks] : ks \in SeqsUpTo(Keys, ManyLen)}
-    \cup {[op |-> "PutMany", recs |-> [j \in 1 .. Len(ks) |-> [k |-> ks[j], val |-> IF j = 1 THEN "x" ELSE "y", exp |-> e]]] :
-              ks \in SeqsUpTo(Keys, ManyLen), e \in ExpClasses \cap {"none", "s1"}}
+    \cup {[op |-> "PutMany", recs |-> [j \in 1 .. Len(ks) |-> [k |-> ks[j], val |-> IF j = 1 THEN "x" ELSE "y", exp |-> es[j]]]] :
+              ks \in SeqsUpTo(Keys, ManyLen), es \in [1 .. ManyLen -> ExpClasses \cap {"none", "s1", "long"}]}
     \cup UNION {{[op |-> "Cas", k |-> k, arg |-> a, val |-> v, exp |-> e] :
                     a \in VerArgs(s, k), v \in InVals \cap {"x", "nil"}, e \in ExpClasses \cap {"none", "s1"}} : k \in Keys}
     \cup {[op |-> "ListKeys", pat |-> p] : p \in Pats}
@@ -164,7 +164,20 @@ View == <<[k \in Keys |-> IF Present(St, k)
                           THEN [val |-> store[k].val, exp |-> store[k].exp, curKnown |-> store[k].ver \in known]
                           ELSE NoRec],
           now, (known \ CurVers(St)) # {}>>
-Emit == EmitHist(hist')
+\* ---- probe epilogue -------------------------------------------------------------
+\* A test that ends with the edge's own call does not show what that call did to state the
+\* abstract store does not distinguish (a TTL kept by the server, a version not refreshed).
+\* Every emitted behaviour is therefore closed by a contract-derived probe: read everything,
+\* list everything, and - when the configuration has time - let time pass twice and read again.
+RECURSIVE ApplySeq(_, _)
+ApplySeq(s, calls) == IF calls = <<>> THEN <<>>
+                      ELSE LET a == Apply(s, calls[1]) IN <<a.res>> \o ApplySeq(a.s, Tail(calls))
+KeySeq == SetToSeq(Keys)
+ProbeCalls == LET look == <<[op |-> "GetMany", ks |-> KeySeq], [op |-> "ListKeys", pat |-> <<"*">>]>>
+              IN IF MaxNow > 0 THEN look \o <<[op |-> "Advance"]>> \o look \o <<[op |-> "Advance"]>> \o look
+                 ELSE look
+ProbeRes(s) == ApplySeq(s, ProbeCalls)
+Emit == EmitHist(hist' \o ProbeRes([store |-> store', now |-> now', nextVer |-> nextVer', known |-> known']))
 \* simulation mode: emit only complete behaviours (the history has reached the simulation depth)
 EmitLast == IF "VERIF_EMIT_MINLEN" \in DOMAIN IOEnv /\ Len(hist') < atoi(IOEnv.VERIF_EMIT_MINLEN)
             THEN TRUE ELSE EmitHist(hist')
